@@ -127,9 +127,21 @@ func randomSentence(c *Case, r *rand.Rand, budget int) []string {
 // start symbol down to the rule's left-hand side, everything else expanded by a random small derivation).
 // Gives inputs that drive a parser through every reduction, hence through all states that matter.
 func coverSentences(c *Case, r *rand.Rand) [][]string {
+	var res [][]string
+	for _, s := range coverSentencesByRule(c, r) {
+		if s != nil {
+			res = append(res, s)
+		}
+	}
+	return res
+}
+
+// coverSentencesByRule: result[i] is a sentence whose derivation uses rule i (0-based), or nil.
+func coverSentencesByRule(c *Case, r *rand.Rand) [][]string {
 	h := minHeights(c)
+	res := make([][]string, len(c.Rules))
 	if _, ok := h[c.Start]; !ok {
-		return nil
+		return res
 	}
 	// parent[A] = (rule index, position) by which A is first reached from the start symbol
 	type par struct{ rule, pos int }
@@ -179,7 +191,6 @@ func coverSentences(c *Case, r *rand.Rand) [][]string {
 		}
 		return out
 	}
-	var res [][]string
 	for ri, ru := range c.Rules {
 		if !seen[ru.Lhs] || ruleHeight(h, ru) >= 1<<30 {
 			continue
@@ -204,9 +215,11 @@ func coverSentences(c *Case, r *rand.Rand) [][]string {
 			cur = out
 			a = pr.Lhs
 		}
-		_ = ri
 		if len(cur) <= 80 {
-			res = append(res, cur)
+			if cur == nil {
+				cur = []string{}
+			}
+			res[ri] = cur
 		}
 	}
 	return res
@@ -748,6 +761,8 @@ func writeRunTrace(buf *bytes.Buffer, caseIdx int, variant string, in []int, ter
 			verdict = "diverge"
 		case "DIED":
 			verdict = "died"
+		case "NESTRESULT":
+			emit(map[string]interface{}{"e": "nest", "text": ln})
 		case "ERRLOG":
 			if len(f) > 1 {
 				msg = f[1]
